@@ -91,10 +91,31 @@ Proof. cbn [all_dirs]. f_equal. induction es as [|[nm c] r IH]; [reflexivity|]. 
 
 Lemma walk_dirs_nondir skip d c : (match c with Dir _ => walk_dirs skip d c | _ => [] end) = walk_dirs skip d c.
 Proof. destruct c; reflexivity. Qed.
-Lemma walk_dirs_Dir skip d es : walk_dirs skip d (Dir es) =
-  (if skip then [] else [(d, es)]) ++ flat_map (fun e : entry => walk_dirs (ends_pycache (fst e)) (d ++ [fst e]) (snd e)) es.
-Proof. cbn [walk_dirs]. f_equal. induction es as [|[nm c] r IH]; [reflexivity|]. cbn [flat_map fst snd]. rewrite <- IH.
-  rewrite walk_dirs_nondir. reflexivity. Qed.
+Lemma insert_by_perm {A} (key:A -> str) x l : Permutation (insert_by key x l) (x :: l).
+Proof. induction l as [|y r IH]; cbn [insert_by]; [apply Permutation_refl|]. destruct (str_leb (key x) (key y)); [apply Permutation_refl|].
+  eapply Permutation_trans; [apply perm_skip; exact IH|apply perm_swap]. Qed.
+Lemma sort_by_perm {A} (key:A -> str) l : Permutation (sort_by key l) l.
+Proof. induction l as [|x r IH]; cbn [sort_by fold_right]; [constructor|]. eapply Permutation_trans; [apply insert_by_perm|].
+  apply perm_skip. exact IH. Qed.
+Lemma sort_by_In {A} (key:A -> str) l x : In x (sort_by key l) <-> In x l.
+Proof. split; apply Permutation_in; [|apply Permutation_sym]; apply sort_by_perm. Qed.
+
+Lemma walk_dirs_Dir skip d es x : In x (walk_dirs skip d (Dir es)) <->
+  In x ((if skip then [] else [(d, es)]) ++ flat_map (fun e : entry => walk_dirs (ends_pycache (fst e)) (d ++ [fst e]) (snd e)) es).
+Proof. cbn [walk_dirs]. rewrite !in_app_iff.
+  set (sub := (fix sub (l:list entry) : list (str * list (path * list entry)) :=
+               match l with
+               | [] => []
+               | (nm, c) :: r =>
+                   (nm, match c with Dir _ => walk_dirs (ends_pycache nm) (d ++ [nm]) c | _ => [] end) :: sub r
+               end)).
+  assert (Hsub : forall l, sub l = map (fun e : entry => (fst e, walk_dirs (ends_pycache (fst e)) (d ++ [fst e]) (snd e))) l).
+  { induction l as [|[nm c] r IH]; [reflexivity|]. cbn [map fst snd]. rewrite <- IH. cbn. rewrite walk_dirs_nondir. reflexivity. }
+  assert (Hin : In x (flat_map snd ((if skip then (fun l => l) else sort_by fst) (sub es))) <-> In x (flat_map snd (sub es))).
+  { destruct skip; [tauto|]. rewrite !in_flat_map. split; intros [y [Hy Hx]]; exists y; split; auto; apply (sort_by_In fst); auto. }
+  rewrite Hin, Hsub. rewrite !in_flat_map. split.
+  - intros [H|[y [Hy Hx]]]; [tauto|]. right. apply in_map_iff in Hy. destruct Hy as [e [<- He]]. eauto.
+  - intros [H|[e [He Hx]]]; [tauto|]. right. eexists. split; [apply in_map_iff; exists e; split; [reflexivity|exact He]|exact Hx]. Qed.
 
 Lemma all_dirs_complete n : forall d0 q es, lookup n q = Some (Dir es) -> In (d0 ++ q, es) (all_dirs d0 n).
 Proof. induction n as [c|t|es0 IH] using node_ind'; intros d0 q es Hl.
@@ -123,7 +144,7 @@ Lemma walk_dirs_complete n : forall skip d0 q es, lookup n q = Some (Dir es) -> 
 Proof. induction n as [c|t|es0 IH] using node_ind'; intros skip d0 q es Hl Hs.
   - destruct q; simpl in Hl; discriminate.
   - destruct q; simpl in Hl; discriminate.
-  - rewrite walk_dirs_Dir. apply in_or_app. destruct q as [|nm q].
+  - apply walk_dirs_Dir. apply in_or_app. destruct q as [|nm q].
     + simpl in Hl, Hs. inversion Hl; subst. rewrite app_nil_r. left. left. reflexivity.
     + right. simpl in Hl. destruct (find_entry nm es0) as [c|] eqn:E; [|discriminate].
       apply find_entry_In in E. apply in_flat_map. exists (nm, c). split; auto.
@@ -135,7 +156,7 @@ Proof. induction n as [c|t|es0 IH] using node_ind'; intros skip d0 q es Hl Hs.
 Lemma walk_dirs_sound n : good_names n -> forall skip d0 d es, In (d, es) (walk_dirs skip d0 n) ->
   exists q, d = d0 ++ q /\ lookup n q = Some (Dir es) /\ skipped skip q = false.
 Proof. induction n as [c|t|es0 IH] using node_ind'; intros Hg skip d0 d es Hin; try (simpl in Hin; tauto).
-  rewrite walk_dirs_Dir in Hin. apply good_names_Dir in Hg. destruct Hg as (Hnd & _ & Hall).
+  apply walk_dirs_Dir in Hin. apply good_names_Dir in Hg. destruct Hg as (Hnd & _ & Hall).
   apply in_app_or in Hin. destruct Hin as [Hin|Hin].
   - destruct skip; [simpl in Hin; tauto|]. destruct Hin as [Hin|[]]. inversion Hin; subst. exists []. rewrite app_nil_r. auto.
   - apply in_flat_map in Hin. destruct Hin as [[nm c] [He Hin]]. rewrite Forall_forall in IH, Hall. cbn [fst snd] in Hin.
@@ -277,13 +298,13 @@ Lemma here_In T sl d es le : In le (here T sl (d, es)) <->
                                     /\ In (nm, c) ces /\ mem_str (stem nm) (all_stems T es) = false).
 Proof. unfold here, files_here, pycache_here, all_stems. cbn [fst snd]. rewrite in_app_iff. split.
   - intros [H|H].
-    + left. apply in_map_iff in H. destruct H as [[nm c] [<- H]]. unfold file_entries in H. apply filter_In in H.
+    + left. apply in_map_iff in H. destruct H as [[nm c] [<- H]]. apply -> (sort_by_In (A:=entry) fst) in H. unfold file_entries in H. apply filter_In in H.
       destruct H as [H1 H2]. apply negb_true_iff in H2. exists nm, c. auto.
     + right. destruct sl; [|simpl in H; tauto]. split; auto. destruct (find_entry s_pycache es) as [[c0|ces|t0]|]; try (simpl in H; tauto).
       apply in_map_iff in H. destruct H as [[nm c] [<- H]]. apply filter_In in H. destruct H as [H1 H2].
       apply negb_true_iff in H2. exists ces, nm, c. auto.
   - intros [(nm & c & -> & H1 & H2)|(-> & ces & nm & c & Hf & -> & H1 & H2)].
-    + left. apply in_map_iff. exists (nm, c). split; auto. unfold file_entries. apply filter_In. split; auto.
+    + left. apply in_map_iff. exists (nm, c). split; auto. apply <- (sort_by_In (A:=entry) fst). unfold file_entries. apply filter_In. split; auto.
       cbn [snd]. rewrite H2. reflexivity.
     + right. rewrite Hf. cbv zeta. apply in_map_iff. exists (nm, c). split; auto. apply filter_In. split; auto.
       cbv beta. cbn [fst]. apply negb_true_iff. exact H2. Qed.
@@ -481,9 +502,12 @@ Proof. unfold from_filename. rewrite match_rev_file_spec. destruct (is_rev_name 
     + rewrite !andb_false_r in Hr. discriminate. Qed.
 
 Lemma load_python_file_not_skip nm k c : load_python_file nm k c <> Skip.
-Proof. unfold load_python_file. destruct (ext_lost nm k); [discriminate|]. destruct c as [[i|]|es|t]; discriminate. Qed.
-Lemma load_python_file_loaded nm k c id : load_python_file nm k c = Loaded id -> c = File (Some id).
-Proof. unfold load_python_file. destruct (ext_lost nm k); [discriminate|]. destruct c as [[i|]|es|t]; try discriminate; intros [= ->]; reflexivity. Qed.
+Proof. unfold load_python_file. destruct (ext_lost nm k); [discriminate|]. destruct c as [[i|]|es|t]; try discriminate.
+  destruct (module_revision nm i); discriminate. Qed.
+Lemma load_python_file_loaded nm k c id : load_python_file nm k c = Loaded id ->
+  exists code, c = File (Some code) /\ module_revision nm code = Some id.
+Proof. unfold load_python_file. destruct (ext_lost nm k); [discriminate|]. destruct c as [[i|]|es|t]; try discriminate.
+  destruct (module_revision nm i) eqn:E; [|discriminate]. intros [= ->]. eauto. Qed.
 
 Definition is_loaded (r:fres) : bool := match r with Loaded _ => true | _ => false end.
 Definition idN (f:lentry) : N := match file_id f with Some i => i | None => 0 end.
@@ -491,10 +515,10 @@ Definition loaded_files (T:node) (sl:bool) (uniq:list lentry) : list lentry :=
   filter (fun f => is_loaded (from_filename T sl f)) uniq.
 
 Lemma from_filename_loaded T sl f id : from_filename T sl f = Loaded id ->
-  snd f = File (Some id) /\ is_rev_name sl (snd (fst f)) = true /\ superseded T (fst (fst f)) (snd (fst f)) = false.
+  (is_file f = true /\ file_id f = Some id) /\ is_rev_name sl (snd (fst f)) = true /\ superseded T (fst (fst f)) (snd (fst f)) = false.
 Proof. destruct f as [[d nm] c]. rewrite from_filename_spec. cbn [fst snd].
   destruct (is_rev_name sl nm); simpl; [|discriminate]. destruct (superseded T d nm); simpl; [discriminate|].
-  intros H. apply load_python_file_loaded in H. auto. Qed.
+  intros H. apply load_python_file_loaded in H. destruct H as [code [-> H]]. unfold is_file, file_id. cbn [fst snd]. auto. Qed.
 
 Lemma loaded_files_cons T sl a r : loaded_files T sl (a :: r) =
   if is_loaded (from_filename T sl a) then a :: loaded_files T sl r else loaded_files T sl r.
@@ -508,7 +532,7 @@ Proof. revert ids; induction l as [|a r IH]; intros ids; cbn [map collect].
       intros f [<-|Hin]; [congruence|auto].
     + destruct (collect (map (from_filename T sl) r)) as [ids'|] eqn:Ec; cbn [option_map]; [|discriminate]. intros [= <-].
       destruct (IH _ eq_refl) as [-> Hf]. split.
-      * cbn [map]. f_equal. unfold idN. apply from_filename_loaded in E. destruct E as [E _]. unfold file_id. rewrite E. reflexivity.
+      * cbn [map]. f_equal. unfold idN. apply from_filename_loaded in E. destruct E as [[_ E] _]. rewrite E. reflexivity.
       * intros f [<-|Hin]; [congruence|auto].
     + discriminate. Qed.
 Lemma collect_total T sl l : (forall f, In f l -> from_filename T sl f <> Fail) ->
@@ -556,8 +580,7 @@ Proof. apply (NoDup_map_inv le_path). apply dedupe_paths_NoDup. Qed.
 Lemma loaded_in_expected f : In f (loaded_files T sl uniq) -> In f (expected_files T sl rec locs).
 Proof. unfold loaded_files, expected_files. rewrite !filter_In. intros [Hu Hld].
   destruct (from_filename T sl f) as [|id|] eqn:E; try discriminate.
-  apply from_filename_loaded in E. destruct E as (Hc & Hn & Hs).
-  assert (Hfile : is_file f = true) by (unfold is_file; rewrite Hc; reflexivity).
+  apply from_filename_loaded in E. destruct E as ([Hfile _] & Hn & Hs).
   apply dedupe_paths_In in Hu. destruct Hu as [Hu _].
   destruct (reals_file_sound T sl rec locs f Hg Hl Hfile Hu) as [Ha Hr]. split; auto.
   unfold wanted. rewrite Hfile, Hn, Hs, Hr. reflexivity. Qed.
@@ -652,10 +675,11 @@ Proof. intros Hwf D es ces nm c Hl Hf Hin Hs.
 Lemma load_from_Ok T sl rec locs ob : load_from T sl rec locs = Ok ob ->
   listing_bad sl rec locs = false /\
   let uniq := dedupe_paths [] (map (real_of T) (listing T sl rec locs)) in
-  collect (map (from_filename T sl) uniq) = Some (o_ids ob) /\ o_dups ob = dup_ids [] (o_ids ob) /\
-  o_twice ob = N.of_nat (length (map (real_of T) (listing T sl rec locs)) - length uniq).
-Proof. unfold load_from. destruct (listing_bad sl rec locs); [discriminate|].
-  destruct (collect _) as [ids|] eqn:E; [|discriminate]. intros [= <-]. cbn [o_ids o_dups o_twice]. auto. Qed.
+  collect (map (from_filename T sl) uniq) = Some (o_ids ob) /\ o_dups ob = dup_ids [] (map rid_of (o_ids ob)) /\
+  o_twice ob = N.of_nat (length (map (real_of T) (listing T sl rec locs)) - length uniq) /\
+  o_map ob = rev_map (o_ids ob).
+Proof. unfold load_from, load_listing. destruct (listing_bad sl rec locs); [discriminate|].
+  destruct (collect _) as [ids|] eqn:E; [|discriminate]. intros [= <-]. cbn [o_ids o_dups o_twice o_map]. auto. Qed.
 
 Theorem exactly_once T sl rec ps ob :
   wf_tree T = true ->
@@ -667,8 +691,8 @@ Proof. intros Hwf Hld. pose proof (wf_tree_pyc_names T Hwf) as Hns. apply wf_tre
   exists (map idN (expected_files T sl rec (flat_map (resolve_loc T) ps))). split.
   - unfold expected_from. rewrite ids_of_total; [reflexivity|]. intros f Hf.
     apply (Permutation_in _ (Permutation_sym HP)) in Hf. unfold loaded_files in Hf. apply filter_In in Hf. destruct Hf as [_ Hf].
-    destruct (from_filename T sl f) eqn:E; try discriminate. apply from_filename_loaded in E. destruct E as [E _].
-    unfold file_id. rewrite E. discriminate.
+    destruct (from_filename T sl f) eqn:E; try discriminate. apply from_filename_loaded in E. destruct E as [[_ E] _].
+    rewrite E. discriminate.
   - rewrite Hids. apply Permutation_map. exact HP. Qed.
 
 Theorem nothing_else T sl rec ps ob :
@@ -677,6 +701,21 @@ Theorem nothing_else T sl rec ps ob :
 Proof. intros Hwf Hld. apply wf_tree_good in Hwf. apply load_from_Ok in Hld. destruct Hld as (_ & Hc & _).
   apply collect_ok in Hc. destruct Hc as [Hids _].
   destruct (nothing_else_files T sl rec _ Hwf (resolve_locs_good T ps)) as [H1 H2]. eauto. Qed.
+
+(* ------------------------------------------------------------------ the revision map: the last Script with an id stays *)
+Lemma rev_map_incl l x : In x (rev_map l) -> In x l.
+Proof. induction l as [|a r IH]; cbn [rev_map]; [tauto|]. destruct (memN (rid_of a) (map rid_of r)); simpl; intuition. Qed.
+Lemma rev_map_rids l r : In r (map rid_of l) -> In r (map rid_of (rev_map l)).
+Proof. induction l as [|a l IH]; cbn [rev_map map]; [tauto|]. destruct (memN (rid_of a) (map rid_of l)) eqn:E.
+  - intros [<-|H]; [apply IH; apply memN_In; exact E|auto].
+  - cbn [map]. intros [<-|H]; [left; auto|right; auto]. Qed.
+Lemma rev_map_NoDup l : NoDup (map rid_of (rev_map l)).
+Proof. induction l as [|a l IH]; cbn [rev_map]; [constructor|]. destruct (memN (rid_of a) (map rid_of l)) eqn:E; [exact IH|].
+  cbn [map]. constructor; [|exact IH]. intro Hin. apply memN_nIn in E. apply E. apply in_map_iff in Hin.
+  destruct Hin as [y [Hy Hin]]. apply in_map_iff. exists y. split; auto. apply rev_map_incl; auto. Qed.
+Lemma rev_map_id l : NoDup (map rid_of l) -> rev_map l = l.
+Proof. induction l as [|a l IH]; cbn [rev_map map]; [reflexivity|]. intros H. inversion H; subst.
+  destruct (memN (rid_of a) (map rid_of l)) eqn:E; [apply memN_In in E; tauto|]. rewrite IH; auto. Qed.
 
 (* ------------------------------------------------------------------ duplicate ids *)
 Lemma count_cons x y l : count x (y :: l) = if N.eq_dec y x then S (count x l) else count x l.
@@ -706,13 +745,27 @@ Proof. unfold same_counts. rewrite forallb_forall. intros H. apply (Permutation_
   - specialize (H _ Hin). apply Nat.eqb_eq in H. rewrite !countb_count in H. exact H.
   - rewrite !count_notin; auto; intro; apply Hn; apply in_or_app; auto. Qed.
 
-Theorem check_sound i o : check_C19 i o = true -> C19_holds i o.
-Proof. unfold check_C19, C19_holds. destruct o as [ob|e], (expected i) as [ids|e']; try discriminate.
-  - rewrite andb_true_iff. intros [H1 H2]. split; [apply same_counts_perm; auto|]. intros x.
-    rewrite forallb_forall in H2. destruct (in_dec N.eq_dec x (o_dups ob ++ ids)) as [Hin|Hn].
-    + specialize (H2 _ Hin). apply Nat.eqb_eq in H2. rewrite !countb_count in H2. exact H2.
+Lemma perm_same_counts a b : Permutation a b -> same_counts a b = true.
+Proof. intros H. unfold same_counts. apply forallb_forall. intros x _. apply Nat.eqb_eq. rewrite !countb_count.
+  unfold count. apply (Permutation_count_occ N.eq_dec); auto. Qed.
+Lemma dups_check_iff d l :
+  forallb (fun x => Nat.eqb (countb x d) (pred (countb x l))) (d ++ l) = true <-> (forall x, count x d = pred (count x l)).
+Proof. rewrite forallb_forall. split.
+  - intros H x. destruct (in_dec N.eq_dec x (d ++ l)) as [Hin|Hn].
+    + specialize (H _ Hin). apply Nat.eqb_eq in H. rewrite !countb_count in H. exact H.
     + rewrite !count_notin; auto; intro; apply Hn; apply in_or_app; auto.
-  - destruct e, e'; try discriminate; reflexivity. Qed.
+  - intros H x _. apply Nat.eqb_eq. rewrite !countb_count. apply H. Qed.
+
+Theorem check_iff i o : check_C19 i o = true <-> C19_holds i o.
+Proof. unfold check_C19, C19_holds. destruct o as [ob|e], (expected i) as [ids|e']; try (split; [discriminate|tauto]).
+  - rewrite !andb_true_iff, dups_check_iff, nodupb_NoDup, !subsetN_incl. split.
+    + intros [[[[H1 H2] H3] H4] H5]. repeat split; auto. apply same_counts_perm; auto.
+    + intros (H1 & H2 & H3 & H4 & H5). repeat split; auto. apply perm_same_counts; auto.
+  - destruct e, e'; simpl; split; try discriminate; auto. Qed.
+Theorem check_sound i o : check_C19 i o = true -> C19_holds i o.
+Proof. apply check_iff. Qed.
+Theorem check_complete i o : C19_holds i o -> check_C19 i o = true.
+Proof. apply check_iff. Qed.
 
 (* ------------------------------------------------------------------ no error on loadable trees *)
 Lemma listing_bad_false T sl rec locs : wf_tree T = true -> (forall l, In l locs -> good_loc T l) ->
@@ -771,11 +824,12 @@ Proof. intros locs Hwf Hids Hin. pose proof (wf_tree_good T Hwf) as Hg.
   destruct (superseded T d nm) eqn:Hs; [simpl; discriminate|]. simpl andb. cbv iota.
   assert (Hexp : In (d, nm, c) (expected_files T sl rec locs)).
   { unfold expected_files. apply filter_In. split; auto. unfold wanted. cbn [fst snd]. rewrite Hfile, Hn, Hs, Hr. reflexivity. }
-  specialize (Hids _ Hexp). unfold file_id in Hids. cbn [snd] in Hids. unfold is_file in Hfile. cbn [snd] in Hfile.
+  specialize (Hids _ Hexp). unfold file_id in Hids. cbn [fst snd] in Hids. unfold is_file in Hfile. cbn [snd] in Hfile.
   destruct c as [[id|]|es|t]; try discriminate; try congruence.
   pose proof (wf_tree_entries T _ _ _ Hwf Ha) as Hok. unfold entry_ok in Hok. cbn [fst snd] in Hok.
   rewrite !andb_true_iff in Hok. destruct Hok as [[[[_ Hw] _] _] _]. apply negb_true_iff in Hw.
-  unfold load_python_file. rewrite (weird_false_ext nm Hw (is_rev_name_mono _ _ Hn)). discriminate. Qed.
+  unfold load_python_file. rewrite (weird_false_ext nm Hw (is_rev_name_mono _ _ Hn)).
+  destruct (module_revision nm id); [discriminate|congruence]. Qed.
 
 Theorem no_error T sl rec ps ids :
   wf_tree T = true ->
@@ -784,13 +838,82 @@ Theorem no_error T sl rec ps ids :
 Proof. intros Hwf He. unfold expected_from in He.
   destruct (ids_of (expected_files T sl rec (flat_map (resolve_loc T) ps))) as [ids'|] eqn:Ei; [|discriminate].
   apply ids_of_spec in Ei. destruct Ei as [_ Hids].
-  unfold load_from. rewrite (listing_bad_false T sl rec _ Hwf (resolve_locs_good T ps)).
+  unfold load_from, load_listing. rewrite (listing_bad_false T sl rec _ Hwf (resolve_locs_good T ps)).
   destruct (collect_total T sl (dedupe_paths [] (map (real_of T) (listing T sl rec (flat_map (resolve_loc T) ps))))) as [ids0 H0].
   - intros f Hf. apply dedupe_paths_In in Hf. destruct Hf as [Hf _]. eapply reals_not_fail; eauto.
   - rewrite H0. eauto. Qed.
 
 Lemma load_from_cases T sl rec locs : (exists ob, load_from T sl rec locs = Ok ob) \/ load_from T sl rec locs = Err ELoad.
-Proof. unfold load_from. destruct (listing_bad sl rec locs); auto. destruct (collect _); eauto. Qed.
+Proof. unfold load_from, load_listing. destruct (listing_bad sl rec locs); auto. destruct (collect _); eauto. Qed.
+
+(* ------------------------------------------------------------------ the listing order does not matter *)
+Lemma real_of_cases T le : In le (all_entries T) -> In (real_of T le) (all_entries T) \/ real_of T le = ([], [], T).
+Proof. intros Hin. destruct le as [[d nm] c]. unfold real_of. cbn [snd]. destruct c as [c0|es|t]; auto.
+  destruct (lookup T t) as [c'|] eqn:Et; auto. destruct t as [|a t0].
+  - simpl in Et. inversion Et; subst. right. reflexivity.
+  - left. assert (Hne : a :: t0 <> []) by discriminate. remember (a :: t0) as t. clear Heqt a t0.
+    pose proof (app_removelast_last [] Hne) as Et2. rewrite Et2 in Et. apply lookup_snoc_inv in Et. destruct Et as [es [E1 E2]].
+    eapply all_entries_complete; eauto. apply find_entry_In; auto. Qed.
+Lemma reals_path_inj T le le' : good_names T -> In le (all_entries T) -> In le' (all_entries T) ->
+  le_path (real_of T le) = le_path (real_of T le') -> real_of T le = real_of T le'.
+Proof. intros Hg H1 H2 Hp. destruct (real_of_cases T le' H2) as [Hz|Hz].
+  - apply real_of_path_inj; auto.
+  - destruct (real_of_cases T le H1) as [Hy|Hy]; [|congruence]. symmetry. apply real_of_path_inj; auto. Qed.
+
+Lemma dedupe_paths_iff l x : (forall y z, In y l -> In z l -> le_path y = le_path z -> y = z) ->
+  (In x (dedupe_paths [] l) <-> In x l).
+Proof. intros Hf. split; [intros H; apply dedupe_paths_In in H; tauto|]. intros H. apply dedupe_paths_keep; [exact H|simpl; tauto|].
+  intros y Hy Hp. apply Hf; auto. Qed.
+Lemma dedupe_paths_perm l l' : (forall y z, In y l -> In z l -> le_path y = le_path z -> y = z) ->
+  Permutation l l' -> Permutation (dedupe_paths [] l) (dedupe_paths [] l').
+Proof. intros Hf HP.
+  assert (Hf' : forall y z, In y l' -> In z l' -> le_path y = le_path z -> y = z).
+  { intros y z Hy Hz. apply Hf; eapply Permutation_in; try apply Permutation_sym; eauto. }
+  apply NoDup_Permutation; try (apply (NoDup_map_inv le_path); apply dedupe_paths_NoDup).
+  intros x. rewrite (dedupe_paths_iff l x Hf), (dedupe_paths_iff l' x Hf'). split; apply Permutation_in; auto.
+  apply Permutation_sym; auto. Qed.
+
+Definition collect_rel (a b : option (list N)) : Prop :=
+  match a, b with Some x, Some y => Permutation x y | None, None => True | _, _ => False end.
+Lemma collect_perm (F : lentry -> fres) u u' : Permutation u u' -> collect_rel (collect (map F u)) (collect (map F u')).
+Proof. unfold collect_rel. induction 1 as [|x l l' HP IH|x y l|l l' l'' HP1 IH1 HP2 IH2]; cbn [map collect].
+  - constructor.
+  - destruct (F x); [exact IH| |exact I].
+    destruct (collect (map F l)), (collect (map F l')); cbn [option_map]; try tauto. constructor; auto.
+  - destruct (F y), (F x); cbn [option_map]; destruct (collect (map F l)); cbn [option_map]; auto; try apply Permutation_refl.
+    apply perm_swap.
+  - destruct (collect (map F l)), (collect (map F l')), (collect (map F l'')); try tauto. eapply Permutation_trans; eauto. Qed.
+
+Lemma dup_ids_perm a b : Permutation a b -> Permutation (dup_ids [] a) (dup_ids [] b).
+Proof. intros H. apply (Permutation_count_occ N.eq_dec). intros x. fold (count x (dup_ids [] a)). fold (count x (dup_ids [] b)).
+  rewrite !duplicate_id. f_equal. unfold count. apply (Permutation_count_occ N.eq_dec); auto. Qed.
+
+Theorem order_invariant T sl L L' : good_names T -> incl L (all_entries T) -> Permutation L L' ->
+  obs_equiv (load_listing T sl L) (load_listing T sl L').
+Proof. intros Hg Hi HP. unfold load_listing.
+  assert (HPr : Permutation (map (real_of T) L) (map (real_of T) L')) by (apply Permutation_map; auto).
+  assert (Hf : forall y z, In y (map (real_of T) L) -> In z (map (real_of T) L) -> le_path y = le_path z -> y = z).
+  { intros y z Hy Hz Hp. apply in_map_iff in Hy, Hz. destruct Hy as [le [<- Hle]]. destruct Hz as [le' [<- Hle']].
+    apply reals_path_inj; auto. }
+  pose proof (dedupe_paths_perm _ _ Hf HPr) as HPu.
+  pose proof (collect_perm (from_filename T sl) _ _ HPu) as Hc. unfold collect_rel in Hc.
+  destruct (collect (map (from_filename T sl) (dedupe_paths [] (map (real_of T) L)))) as [ids|];
+  destruct (collect (map (from_filename T sl) (dedupe_paths [] (map (real_of T) L')))) as [ids'|]; try tauto; [|reflexivity].
+  unfold obs_equiv. cbn [o_ids o_twice o_dups o_map]. repeat split.
+  - exact Hc.
+  - rewrite (Permutation_length HPr), (Permutation_length HPu). reflexivity.
+  - apply dup_ids_perm. apply Permutation_map. exact Hc.
+  - intros Hnd. rewrite (rev_map_id ids Hnd). rewrite (rev_map_id ids'); [exact Hc|].
+    eapply Permutation_NoDup; [apply Permutation_map; exact Hc|exact Hnd]. Qed.
+
+(* the same at the level of load_from: the configured locations in another order *)
+Theorem location_order_invariant T sl rec ps ps' : wf_tree T = true -> Permutation ps ps' ->
+  obs_equiv (load_from T sl rec (flat_map (resolve_loc T) ps)) (load_from T sl rec (flat_map (resolve_loc T) ps')).
+Proof. intros Hwf HP. pose proof (wf_tree_good T Hwf) as Hg. unfold load_from.
+  rewrite !(listing_bad_false T sl rec _ Hwf (resolve_locs_good T _)).
+  apply order_invariant; auto.
+  - intros le Hle. apply (listing_sound T sl rec _ le Hg (resolve_locs_good T ps) Hle).
+  - unfold listing. apply Permutation_flat_map. apply Permutation_flat_map. exact HP. Qed.
 
 (* ------------------------------------------------------------------ the property on the proved class *)
 
@@ -837,7 +960,7 @@ Proof. intros Hwf Hi H1 H2.
     destruct (exactly_once T sl rec (ps ++ ps2) ob' Hwf H2) as [ids' [E2 P2]].
     rewrite flat_map_app in E2. unfold expected_from in E1, E2. rewrite (expected_files_app _ _ _ _ _ Hi') in E2.
     rewrite E2 in E1. inversion E1; subst. eapply Permutation_trans; [exact P1|apply Permutation_sym; exact P2].
-  - apply load_from_Ok in H2. destruct H2 as (_ & _ & _ & Ht). rewrite Ht, Nat2N.id. rewrite flat_map_app, listing_app, map_app, !app_length, !map_length.
+  - apply load_from_Ok in H2. destruct H2 as (_ & _ & _ & Ht & _). rewrite Ht, Nat2N.id. rewrite flat_map_app, listing_app, map_app, !app_length, !map_length.
     set (L1 := listing T sl rec (flat_map (resolve_loc T) ps)). set (L2 := listing T sl rec (flat_map (resolve_loc T) ps2)).
     assert (Hle : (length (dedupe_paths [] (map (real_of T) L1 ++ map (real_of T) L2)) <= length (map le_path (map (real_of T) L1)))%nat).
     { rewrite <- (map_length le_path (dedupe_paths _ _)). apply NoDup_incl_length; [apply dedupe_paths_NoDup|].
@@ -901,8 +1024,12 @@ Proof. intros Hwf.
   destruct (expected_from (i_tree i) (i_sl i) (i_rec i) (flat_map (resolve_loc (i_tree i)) ps)) as [ids|e] eqn:He.
     + destruct (no_error _ _ _ _ _ Hwf He) as [ob Hob]. rewrite Hob.
       destruct (exactly_once _ _ _ _ _ Hwf Hob) as [ids' [He' HP]]. rewrite He in He'. inversion He'; subst ids'.
-      split; auto. intros x. apply load_from_Ok in Hob. destruct Hob as (_ & _ & Hd & _). rewrite Hd, duplicate_id.
-      f_equal. unfold count. apply (Permutation_count_occ N.eq_dec); auto.
+      apply load_from_Ok in Hob. destruct Hob as (_ & _ & Hd & _ & Hm). rewrite Hm. repeat split; auto.
+      * intros x. rewrite Hd, duplicate_id. f_equal. unfold count. apply (Permutation_count_occ N.eq_dec).
+        apply Permutation_map; auto.
+      * apply rev_map_NoDup.
+      * intros x Hx. apply (Permutation_in _ HP). apply rev_map_incl; auto.
+      * intros r Hr. apply rev_map_rids. apply (Permutation_in _ (Permutation_map rid_of (Permutation_sym HP))). exact Hr.
     + destruct (load_from_cases (i_tree i) (i_sl i) (i_rec i) (flat_map (resolve_loc (i_tree i)) ps)) as [[ob Hob]|Herr].
       * destruct (exactly_once _ _ _ _ _ Hwf Hob) as [ids' [He' _]]. congruence.
       * rewrite Herr. unfold expected_from in He. destruct (ids_of _); [discriminate|]. congruence. Qed.
